@@ -4,7 +4,7 @@ use crate::log_utils;
 use std::borrow::Cow;
 
 /// Authentication request source
-#[derive(Debug, Clone, PartialEq)]
+#[derive(Clone, PartialEq)]
 pub enum Source<'this> {
     /// A client tries to authenticate using SNI
     Sni(Cow<'this, str>),
@@ -26,6 +26,16 @@ pub enum Status {
 pub trait Authenticator: Send + Sync {
     /// Authenticate client
     fn authenticate(&self, source: &Source<'_>, log_id: &log_utils::IdChain<u64>) -> Status;
+}
+
+/// The credentials themselves must not reach the log, so only the kind of source is printed
+impl std::fmt::Debug for Source<'_> {
+    fn fmt(&self, f: &mut std::fmt::Formatter<'_>) -> std::fmt::Result {
+        match self {
+            Source::Sni(_) => write!(f, "Sni(\"scrubbed\")"),
+            Source::ProxyBasic(_) => write!(f, "ProxyBasic(\"scrubbed\")"),
+        }
+    }
 }
 
 impl Source<'_> {
